@@ -269,6 +269,27 @@ func (w *World) Settle() {
 	}
 }
 
+// quietStates are the wait reasons of a goroutine that cannot move until another goroutine
+// (or the explorer) acts. Everything else - running, runnable, syscall, preempted (a
+// goroutine suspended for a stack scan or for this very dump), copystack, GC assist waits -
+// will move by itself, so the world is not quiet yet. An unknown state counts as not quiet.
+var quietStates = [][]byte{
+	[]byte("chan receive"), []byte("chan send"), []byte("select"), []byte("semacquire"),
+	[]byte("sync.Mutex.Lock"), []byte("sync.RWMutex.RLock"), []byte("sync.RWMutex.Lock"),
+	[]byte("sync.Cond.Wait"), []byte("sync.WaitGroup.Wait"), []byte("IO wait"),
+	[]byte("finalizer wait"), []byte("GC worker (idle)"), []byte("force gc (idle)"),
+	[]byte("GC sweep wait"), []byte("GC scavenge wait"), []byte("cleanup wait"),
+}
+
+func blockedState(st []byte) bool {
+	for _, q := range quietStates {
+		if bytes.HasPrefix(st, q) {
+			return true
+		}
+	}
+	return false
+}
+
 // goroutinesQuiet parses the headers of a full goroutine dump.
 func goroutinesQuiet() (bool, string) {
 	n := runtime.Stack(stackBuf, true)
@@ -302,11 +323,11 @@ func goroutinesQuiet() (bool, string) {
 			continue
 		}
 		st := line[lb+1:]
-		if bytes.HasPrefix(st, []byte("running")) || bytes.HasPrefix(st, []byte("runnable")) || bytes.HasPrefix(st, []byte("syscall")) {
-			// a goroutine parked in a blocking read on an empty fd is quiet (fdbased dispatcher)
-			if bytes.HasPrefix(st, []byte("syscall")) && fdIdle != nil && fdIdle() {
-				continue
-			}
+		// a goroutine parked in a blocking read on an empty fd is quiet (fdbased dispatcher)
+		if bytes.HasPrefix(st, []byte("syscall")) && fdIdle != nil && fdIdle() {
+			continue
+		}
+		if !blockedState(st) {
 			return false, string(line)
 		}
 	}
